@@ -8,9 +8,9 @@ cd $wt || exit 1
 git checkout -q -- src 2>/dev/null; git apply out/patch.diff || { echo "patch does not apply in worktree"; exit 1; }
 mkdir -p tests; cp out/demo.rs tests/demo.rs 2>/dev/null
 t=$(cargo test --offline --lib 2>&1 | grep "^test result" | head -1)
-d1=$(cargo test --offline --test demo 2>&1 | grep "^test result" | head -1)
+d1=$(cargo test --offline $DEMO_FEATURES --test demo 2>&1 | grep "^test result" | head -1)
 git checkout -q -- src
-d0=$(cargo test --offline --test demo 2>&1 | grep "^test result" | head -1)
+d0=$(cargo test --offline $DEMO_FEATURES --test demo 2>&1 | grep "^test result" | head -1)
 git apply out/patch.diff
 echo "CONFIRM unit tests with change: $t"
 echo "CONFIRM demo with change:      $d1"
